@@ -17,6 +17,10 @@ RICH = {
     "sub/__init__.py": "",
     "sub/deep/__init__.py": "",
     "sub/deep/moddeep.py": "class DeepCls:\n    pass\n\n\ndef deep_fun() -> int:\n    ...\n",
+    # one alias name bound to different classes in two modules whose names share a prefix
+    "core_widgets.py": "class Widget:\n    pass\n",
+    "core_extra.py": "class Gadget:\n    pass\n\n\nHandle = Gadget\n\n\ndef extra(h: Handle) -> Handle:\n    ...\n",
+    "core.py": "from typing import Final\n\nfrom detpk.core_widgets import Widget\n\nHandle = Widget\n\n\nclass Holder:\n    handle: Final[Handle] = Widget()\n\n    def get(self, h: Handle) -> Handle:\n        ...\n",
     "dup1.py": "class Same:\n    pass\n\n\ndef use1(a: list[Same, int], b: set[Same, str]) -> Same:\n    ...\n",
     "dup2.py": "class Same:\n    pass\n\n\ndef use2(a: list[Same, int]) -> Same:\n    ...\n",
     "user.py": '''from __future__ import annotations
@@ -119,6 +123,11 @@ def main(v: Verdict) -> None:
             jobs.append(kw)
             meta.append((name, e))
     runs = run_many(jobs)
+    # repetition: the same command once more, into the output directory the first run has populated
+    from runner import run_cli
+    for j, ((name, e), r) in enumerate(zip(meta, runs)):
+        if e["rep"] == 2 and r.exit == "ok":
+            runs[j] = run_cli(jobs[j]["src"], jobs[j]["opts"], out=r.out, hashseed=jobs[j]["hashseed"], timeout=300)
     by = {}
     for (name, e), r in zip(meta, runs):
         by.setdefault(name, []).append((e, r))
